@@ -970,8 +970,14 @@ class Evaluator:
     # ---- objects with constructors / destructors (enabled by `objects = True`) -------------------------------
     def _run_special(self, g, prefix, args, n, label):
         """run constructor / destructor g on the object whose fields live under `prefix` in this environment"""
-        rec = self.prog.records.get(g.cls, {})
-        fields = {fl["name"] for fl in rec.get("fields", [])}
+        fields, c_ = set(), g.cls
+        for _ in range(8):      # the object's members: its class's and its bases'
+            rec = self.prog.records.get(c_, {})
+            fields |= {fl["name"] for fl in rec.get("fields", [])}
+            bs = rec.get("bases") or []
+            if not bs:
+                break
+            c_ = bs[0]
         root = lambda key: key.split(".")[0].split("[")[0]
         pnames = {q["name"] for q in g.params}
         senv = {k_: v for k_, v in self.env.items() if k_ not in pnames and root(k_) not in fields and k_ != "this"}
@@ -979,6 +985,11 @@ class Evaluator:
             if k_.startswith(prefix) and root(k_[len(prefix):]) in fields:
                 senv[k_[len(prefix):]] = v
         senv.update({q["name"]: v for q, v in zip(g.params, args) if v is not None})
+        m_ = re.match(r"^@(-?\d+)\.$", prefix)
+        if m_:
+            senv["this"] = int(m_.group(1))     # (an object of the heap model: `this` is its address)
+        elif prefix == "" and "this" in self.env:
+            senv["this"] = self.env["this"]     # (a base-class constructor on the same object)
         if getattr(self, "_depth", 0) > 30:
             raise Unknown("inlining depth exceeded in %s (unbounded recursion)" % label)
         sub = Evaluator(self.prog, g, env=senv, calls=self.calls)
@@ -1005,6 +1016,7 @@ class Evaluator:
         if getattr(sub, "threw", None) is not None:
             self.threw = sub.threw
             raise Thrown(label, exc=getattr(sub, "threw_type", None))
+        return getattr(sub, "ret", None)
 
     def file_local_class(self, cls):
         """the class is defined in a source file (not a header) and the outermost folded function lives in that file"""
@@ -1129,6 +1141,11 @@ class Evaluator:
                                     raise
                                 except Unknown:
                                     self.env.pop(e["field"], None)
+                        elif e.get("e") == "init" and e.get("base") and e.get("expr") is not None:
+                            # a base-class initialiser: the base constructor runs on the same object
+                            xs_ = f.strip(f.nodes[e["expr"]])
+                            if xs_ is not None and xs_["k"] == "CXXConstructExpr":
+                                self._construct("", xs_, f.nodes[e["expr"]])
                         elif e.get("e") == "autodtor" and e.get("var"):
                             live_ = getattr(self, "_live", [])
                             hit_ = [x for x in live_ if x[0] == e["var"]]
